@@ -76,7 +76,8 @@ func refFlattenChildMsg(m *FlattenChildMsg) []byte {
 
 func refText(t *Text) []byte { return verif.JObjOpt("body", verif.JStr(t.Body), t.Body != "") }
 func refImage(i *Image) []byte {
-	return verif.JObjOpt("url", verif.JStr(i.Url), i.Url != "", "width", verif.JInt(int64(i.Width)), i.Width != 0)
+	return verif.JObjOpt("url", verif.JStr(i.Url), i.Url != "", "width", verif.JInt(int64(i.Width)), i.Width != 0,
+		"altText", verif.JStr(i.AltText), i.AltText != "", "byteSize", verif.JStr(strconv.FormatInt(i.ByteSize, 10)), i.ByteSize != 0)
 }
 
 func refOneofMsg(m *OneofMsg) []byte {
@@ -103,16 +104,17 @@ func refOneofFlatMsg(m *OneofFlatMsg) []byte {
 	if img != nil {
 		disc = "img"
 	}
-	body, url, width := "", "", int32(0)
+	body, url, width, alt, size := "", "", int32(0), "", int64(0)
 	if t != nil {
 		body = t.Body
 	}
 	if img != nil {
-		url, width = img.Url, img.Width
+		url, width, alt, size = img.Url, img.Width, img.AltText, img.ByteSize
 	}
 	return verif.JObjOpt("id", verif.JStr(m.Id), m.Id != "",
 		"kind", verif.JStr(disc), t != nil || img != nil,
-		"body", verif.JStr(body), body != "", "url", verif.JStr(url), url != "", "width", verif.JInt(int64(width)), width != 0)
+		"body", verif.JStr(body), body != "", "url", verif.JStr(url), url != "", "width", verif.JInt(int64(width)), width != 0,
+		"altText", verif.JStr(alt), alt != "", "byteSize", verif.JStr(strconv.FormatInt(size, 10)), size != 0)
 }
 
 // ---- symbolic message values ----
@@ -244,7 +246,7 @@ func symContent(m *OneofMsg, f *OneofFlatMsg) {
 			f.Content = &OneofFlatMsg_Text{Text: t}
 		}
 	case 2:
-		i := &Image{Url: verif.String("image.url", verif.L(2)), Width: verif.Int32("image.width")}
+		i := &Image{Url: verif.String("image.url", verif.L(2)), Width: verif.Int32("image.width"), AltText: verif.String("image.alt", verif.L(2)), ByteSize: verif.Int64("image.bytes")}
 		if m != nil {
 			m.Content = &OneofMsg_ImageData{ImageData: i}
 		} else {
@@ -266,7 +268,8 @@ func VerifC04Oneof() {
 		same = verif.And(same, back.GetText().Body == m.GetText().Body)
 	}
 	if m.GetImageData() != nil && back.GetImageData() != nil {
-		same = verif.And(same, back.GetImageData().Url == m.GetImageData().Url, back.GetImageData().Width == m.GetImageData().Width)
+		same = verif.And(same, back.GetImageData().Url == m.GetImageData().Url, back.GetImageData().Width == m.GetImageData().Width,
+			back.GetImageData().AltText == m.GetImageData().AltText, back.GetImageData().ByteSize == m.GetImageData().ByteSize)
 	}
 	verif.Assert("C04/oneof/round-trip", same)
 	verif.Reach("C04/oneof/decided")
@@ -285,7 +288,8 @@ func VerifC04OneofFlat() {
 		same = verif.And(same, back.GetText().Body == m.GetText().Body)
 	}
 	if m.GetImageData() != nil && back.GetImageData() != nil {
-		same = verif.And(same, back.GetImageData().Url == m.GetImageData().Url, back.GetImageData().Width == m.GetImageData().Width)
+		same = verif.And(same, back.GetImageData().Url == m.GetImageData().Url, back.GetImageData().Width == m.GetImageData().Width,
+			back.GetImageData().AltText == m.GetImageData().AltText, back.GetImageData().ByteSize == m.GetImageData().ByteSize)
 	}
 	verif.Assert("C04/oneof-flat/round-trip", same)
 	verif.Reach("C04/oneof-flat/decided")
